@@ -63,6 +63,7 @@ class Ctx:
         self.assumptions = []
         self.nontrivial = set()
         self.log_lines = []
+        self.reject_detail = {}         # record index -> text the judge printed after the line number
 
     # ---------------------------------------------------------------- logging
     def log(self, *a):
@@ -179,7 +180,9 @@ class Ctx:
             for line in r.stdout.splitlines():
                 if "@@REJECT@@" in line:
                     try:
-                        rej.append(int(line.strip().strip('"').split("@@REJECT@@")[1].split()[0]) - 1)
+                        rest = line.strip().strip('"').split("@@REJECT@@")[1].split()
+                        rej.append(int(rest[0]) - 1)
+                        self.reject_detail[base + int(rest[0]) - 1] = " ".join(rest[1:])
                     except Exception:
                         raise Inconclusive(f"R4 unparsable reject line: {line}")
             consumed = None
